@@ -2,8 +2,11 @@ import L21.Props.C04
 import L21.Props.C04D
 import L21.Props.C04L
 import L21.Props.C04Order
+import L21.Props.C04OrderLib
+import L21.Props.C04OrderSub
 import L21.Props.C05RT
 import L21.Props.C11
+import L21.Props.NumConsts
 #print axioms L21.LefEnum.c04_enum_strings_canonical
 #print axioms L21.LefEnum.c04_enum_no_shadowing
 #print axioms L21.LefEnum.c04_case_insensitive
@@ -24,3 +27,11 @@ import L21.Props.C11
 #print axioms L21.Lef.c04_macro_reads_back
 #print axioms L21.Lef.c04_macro_order_free
 #print axioms L21.Lef.rendersM_canon
+#print axioms L21.Lef.c04_lib_any_order
+#print axioms L21.Lef.c04_lib_any_order_noend
+#print axioms L21.Lef.runL_fixed
+#print axioms L21.Lef.c04_lib_reads_back
+#print axioms L21.Lef.c04_units_any_order
+#print axioms L21.c04_dbu_table_is_source
+#print axioms L21.Lef.c04_site_any_order
+#print axioms L21.Lef.c04_genvia_any_order
